@@ -281,8 +281,30 @@ def _retire(repo, rep):
                 if isinstance(a, ast.For):
                     # a conditional expression in what feeds the loop is a
                     # guard as well
-                    conds += [x.test for x in ast.walk(a.iter)
+                    # (also one hidden behind a local that feeds it)
+                    feed, todo, seen_ = [a.iter], [a.iter], set()
+                    while todo:
+                        e_ = todo.pop()
+                        for x in ast.walk(e_):
+                            if isinstance(x, ast.Name) and \
+                                    x.id not in seen_:
+                                seen_.add(x.id)
+                                da = [d for d in ast.walk(f.node)
+                                      if isinstance(d, ast.Assign) and any(
+                                          src(t_) == x.id
+                                          for t_ in d.targets)]
+                                ds = [d.value for d in da]
+                                feed += ds
+                                todo += ds
+                                # a definition under a condition
+                                conds += [g_[0] for d in da
+                                          for g_ in L.guards_of(d, f.node)
+                                          if isinstance(g_[0], ast.expr)]
+                    conds += [x.test for it in feed for x in ast.walk(it)
                               if isinstance(x, ast.IfExp)]
+                    conds += [c_ for it in feed for x in ast.walk(it)
+                              if isinstance(x, ast.comprehension)
+                              for c_ in x.ifs]
                 for cnd in conds:
                     state = [x for x in ast.walk(cnd)
                              if isinstance(x, ast.Name) and x.id == "self"]
